@@ -254,11 +254,11 @@ where
 // only when the range is a power of two; with other ranges the rejection loop's exit
 // condition stays symbolic and symbolic execution does not terminate. Hence the number
 // of sequences N and of start positions L-W+1 are powers of two here.
-//@ C16 thorough 5400 sampler base case: Sampler::new, 2 sequences of length 4, width 3 (2 start positions) | mem=14 | unwindset=sampler::Sampler::<.*>::(_new|include_sequence|exclude_sequence)$#*:8;uniform::UniformInt<.*#*:3
+//@ C16 extended 5400 sampler base case: Sampler::new, 2 sequences of length 4, width 3 (2 start positions) | mem=14 | unwindset=sampler::Sampler::<.*>::(_new|include_sequence|exclude_sequence)$#*:8;uniform::UniformInt<.*#*:3
 sampler_harness!(36, c16_init_n2_l4_w3, init_body::<2, 4, 3>());
-//@ C16 thorough 7200 sampler step, one-occurrence mode, 2 sequences of length 4, width 3, generic scoring arm | mem=14 | unwindset=sampler::Sampler::<.*>::(_new|include_sequence|exclude_sequence)$#*:8;uniform::UniformInt<.*#*:3
+//@ C16 extended 7200 sampler step, one-occurrence mode, 2 sequences of length 4, width 3, generic scoring arm | mem=14 | unwindset=sampler::Sampler::<.*>::(_new|include_sequence|exclude_sequence)$#*:8;uniform::UniformInt<.*#*:3
 sampler_harness!(36, c16_step_oops_n2_l4_w3, step_body::<2, 4, 3, false>(Dispatch::Generic));
-//@ C16 thorough 14400 sampler step, one-occurrence mode, 2 sequences of length 5, width 2 (4 start positions) | mem=14 | unwindset=sampler::Sampler::<.*>::(_new|include_sequence|exclude_sequence)$#*:8;uniform::UniformInt<.*#*:3
+//@ C16 extended 14400 sampler step, one-occurrence mode, 2 sequences of length 5, width 2 (4 start positions) | mem=14 | unwindset=sampler::Sampler::<.*>::(_new|include_sequence|exclude_sequence)$#*:8;uniform::UniformInt<.*#*:3
 sampler_harness!(36, c16_step_oops_n2_l5_w2, step_body::<2, 5, 2, false>(Dispatch::Generic));
-//@ C16 thorough 14400 sampler step, zero-or-one mode, 4 sequences of length 2, width 1 | mem=14 | unwindset=sampler::Sampler::<.*>::(_new|include_sequence|exclude_sequence)$#*:8;uniform::UniformInt<.*#*:3
+//@ C16 extended 14400 sampler step, zero-or-one mode, 4 sequences of length 2, width 1 | mem=14 | unwindset=sampler::Sampler::<.*>::(_new|include_sequence|exclude_sequence)$#*:8;uniform::UniformInt<.*#*:3
 sampler_harness!(36, c16_step_zoops_n4_l2_w1, step_body::<4, 2, 1, true>(Dispatch::Generic));
